@@ -212,10 +212,17 @@ def run(ctx):
         s2m = [a for a in fx.find(domain="comb") if a.t == "getattr(getattr(master, channel), name)"]
         ok = len(s2m) == 1 and not s2m[0].guards
         if ok:
-            t = cnorm(s2m[0].value)
-            ok = t.startswith("reduce(or_, [") and \
-                cnorm("getattr(getattr(slaves[i][1], channel), name) & Replicate(slave_sel[directions[channel]][i], len(getattr(getattr(master, channel), name)))")[:100] in t and \
-                "(i, (_, slave)) in enumerate(slaves)" in t
+            v = fx.expand(s2m[0].value, keep=("directions",))
+            els = q.star_elements(v.args[1]) if isinstance(v, ast.Call) and norm(v.func) == "reduce" and len(v.args) == 2 and \
+                norm(v.args[0]) == "or_" else None
+            ok = bool(els) and len(els) == 1 and els[0][2] == "enumerate(slaves)"
+            if ok:
+                elt, tgt, _it = els[0]
+                iv = tgt.strip("()").split(",")[0].strip()
+                # comprehension form: the element variable is still `slave`; loop-built form: already `slaves[i][1]`
+                et = cnorm(elt).replace("getattr(getattr(slave, channel), name)", f"getattr(getattr(slaves[{iv}][1], channel), name)")
+                ok = et == cnorm(f"getattr(getattr(slaves[{iv}][1], channel), name) & Replicate(slave_sel[directions[channel]][{iv}], "
+                                 f"len(getattr(getattr(master, channel), name)))")
         ctx.ob("L3", rel, dcls, "S->M signals = OR over all slaves masked by the same select bit", ok, "" if ok else f"{[short(a.v, 200) for a in s2m]}",
                s2m[0].line if s2m else 0)
         m = ctx.mod(rel)
@@ -236,8 +243,15 @@ def run(ctx):
         lk = None
         for n in ast.walk(init):
             if isinstance(n, ast.Assign) and norm(n.targets[0]) == "locks" and isinstance(n.value, ast.Dict):
-                lk = {k.value: {kk.arg: norm(kk.value) for kk in v.keywords} for k, v in zip(n.value.keys, n.value.values)
-                      if isinstance(v, ast.Call)}
+                def _call_of(v):
+                    # the counter built in place, or built into a local first (wr_lock = Counter(...); locks = {"write": wr_lock, ...})
+                    if isinstance(v, ast.Name):
+                        ds = [x.value for x in ast.walk(init) if isinstance(x, ast.Assign) and len(x.targets) == 1 and
+                              isinstance(x.targets[0], ast.Name) and x.targets[0].id == v.id]
+                        v = ds[0] if len(ds) == 1 else v
+                    return v if isinstance(v, ast.Call) else None
+                lk = {k.value: {kk.arg: norm(kk.value) for kk in _call_of(v).keywords} for k, v in zip(n.value.keys, n.value.values)
+                      if _call_of(v) is not None}
         want_r = "master.r.valid & master.r.ready & master.r.last" if full else "master.r.valid & master.r.ready"
         ok = lk is not None and set(lk) == {"write", "read"} and \
             B.equivalent(B.from_expr(lk["write"].get("request", "0")), B.from_expr("master.aw.valid & master.aw.ready")) and \
